@@ -50,6 +50,10 @@ let run_keepalive path =
           Printf.printf "propfail ka_formula %s read timeout %s, expected %s = 1.5 x enforced keep alive %s\n"
             (S.concat "," [m; ka; pp; ps; im; tt]) t' (string_of_z s.KeepAlive.s_read_timeout)
             (string_of_n (KeepAlive.eff_keep_alive (z_of_string m) (n_of_string ka)))
+        else if [m'; pp'; ps'; im'; tt'] <> [string_of_n s.KeepAlive.s_max_keep_alive; string_of_n s.KeepAlive.s_publishes;
+                 string_of_n s.KeepAlive.s_subscribes; string_of_n s.KeepAlive.s_inflight; string_of_z s.KeepAlive.s_token_timeout] then
+          Printf.printf "propfail ka_defaults %s client fields after CONNECT: max=%s pp=%s ps=%s inflight=%s token-timeout=%s, documented defaults give %s\n"
+            (S.concat "," [m; ka; pp; ps; im; tt]) m' pp' ps' im' tt' model
         else if cnt <> "1" then
           Printf.printf "propfail ka_once %s SetReadTimeout called %s times during CONNECT handling\n" (S.concat "," [m; ka; pp; ps; im; tt]) cnt
         else
@@ -201,8 +205,10 @@ let run_pkt path =
   let n = ref 0 and bad = ref 0 and outside = ref 0 in
   let note, distinct = count_distinct () in
   let cmp kind k want got =
+    (* the model of these functions is their specification (PKT_* theorems characterise it), so a differing
+       table row is a concrete input on which the implementation violates the stated clause *)
     if want <> got then begin incr bad;
-      Printf.printf "diff pkt pk,%s,%s model=%s impl=%s\n" kind k (S.concat " " want) (S.concat " " got) end in
+      Printf.printf "propfail pkt_%s pk,%s,%s specified=%s implementation=%s\n" kind kind k (S.concat " " want) (S.concat " " got) end in
   L.iter (fun line -> match words line with
     | "pk" :: kind :: k :: "|" :: got ->
       incr n; note (kind ^ k);
